@@ -19,7 +19,7 @@ ASSUMPTIONS = [
 CASES = {"quick": 6000, "thorough": 1500000}
 MIN_CASES = {"quick": 1500, "thorough": 30000}
 REQUIRED_CLASSES = ["valid", "invalid"]
-REQUIRED_COUNTERS = ["tiling_checked", "inputs_unchanged_checked", "invalid_rejected_checked", "same_tree_loaded_twice", "entry:text", "entry:file", "entry:tree", "entry:handle",
+REQUIRED_COUNTERS = ["tiling_checked", "inputs_unchanged_checked", "invalid_rejected_checked", "same_tree_loaded_twice", "attached_netlist_with_movable_hard_modules", "entry:text", "entry:file", "entry:tree", "entry:handle",
                      "struct:empty", "struct:full_cover", "struct:ring", "struct:tjunction", "struct:border"]
 
 
@@ -38,6 +38,16 @@ def generate(rng, tier, i):
         if rng.random() < 0.5:
             mods["S0"] = {"area": (min(d["W"], d["H"]) / 4) ** 2, "center": [d["W"] / 2, d["H"] / 2]}
         d["netlist"] = {"Modules": mods, "Nets": [["T0", "T1"]]}
+    if rng.random() < 0.2:
+        # the attached netlist also has movable hard (and soft) modules with rectangles anywhere - even on top of regions: only the rectangles
+        # of FIXED modules are regions of the die
+        nt = gd.netlist_tree_for_fixed(d["fixed"]) or {"Modules": {}}
+        W, H = d["W"], d["H"]
+        for k in range(rng.randint(1, 2)):
+            w, h = W * rng.choice([0.2, 0.5, 1.0]), H * rng.choice([0.2, 0.5])
+            nt["Modules"][f"HM{k}"] = {"hard": True, "rectangles": [[w / 2 + rng.choice([0, 0.1]) * W, h / 2, w, h]]}
+        nt["Modules"]["SM"] = {"area": (min(W, H) / 3) ** 2, "rectangles": [[W / 2, H / 2, W / 2, H / 2]]}
+        d["netlist"] = nt
     if i % 5 == 4:
         bad = gd.inject_defect(rng, d, gd.INVALID[(i // 5) % len(gd.INVALID)])
         if bad is not None:
@@ -68,6 +78,8 @@ def check(case, ctx):
     d = case["die"]
     ctx.count("entry:" + case["entry"])
     ctx.count("struct:" + str(d.get("struct")))
+    if d.get("netlist") and any("hard" in m for m in d["netlist"]["Modules"].values()):
+        ctx.count("attached_netlist_with_movable_hard_modules")
     ok, res = ctx.call(dieutil.build_die, d, case["entry"])
     if case["cls"] == "invalid":
         ctx.count("invalid_rejected_checked")
